@@ -451,6 +451,9 @@ func Execute(s *Schedule, opt ExecOpts) (res *RunResult) {
 		// this process links the application like cmd/fundraisingd does and was built without the testing link flag
 		res.addV("C10", "default_build.switch_on", "process", "keeper.EnableAddAllowedBidder is true in a build that does not pass the documented testing link flag", 0, -1)
 	}
+	if d := escrowDerivationProblem(); d != "" {
+		res.addV("C19", "terms.escrow_derivation", "escrow", d, 0, -1)
+	}
 	e.actors = MakeActors(s.Cfg.Actors)
 	mbal, ibal := parseBalances(&s.Cfg, e.actors)
 	for i := range e.actors {
@@ -530,6 +533,9 @@ func Execute(s *Schedule, opt ExecOpts) (res *RunResult) {
 	}
 	if opt.Lin {
 		e.linCheck()
+	}
+	if s.Cfg.Profile == "genesis" && !res.Stats.Halted && res.HarnessErr == "" {
+		e.finalExportValidate(len(s.Blocks) - 1)
 	}
 	if opt.collectFrames {
 		res.frames = e.frames
